@@ -38,6 +38,7 @@ class Builder:
         for k, v in case.get('reg', {}).items():
             self.registry.set_registry_at(k, v)
         self.rep_registry = RepetitionRegistry()
+        self.rep_pending = []
         self.leafinfo = []
 
     def dur(self, d):
@@ -93,8 +94,10 @@ class Builder:
         # repetition counts are given as fixed numbers or through a (shared) repetition registry: every third nested block,
         # chosen by a deterministic function of the input, uses the registry
         if not top and (7 * reps + len(prog)) % 3 == 0:
-            key = f"r{len(self.rep_registry._variable_repetitions)}"
-            self.rep_registry.set_registry_at(key, reps)
+            # the count is written into the registry only AFTER the whole circuit is built (the usual way to sweep a number of
+            # rounds): nested copies must keep following the registry
+            key = f"r{len(self.rep_pending)}"
+            self.rep_pending.append((key, reps))
             strategy = RegistryRepetitionStrategy(registry=self.rep_registry, registry_key=key)
         else:
             strategy = FixedRepetitionStrategy(reps)
@@ -118,6 +121,8 @@ class Builder:
             self.leafinfo.append({'cls': type(op).__name__, 'ch': [[ci.id, ci.channel.name] for ci in op.channel_identifiers]})
             entries.append(circuit.add(op))
         if top:
+            for key, reps_value in self.rep_pending:
+                self.rep_registry.set_registry_at(key, reps_value)
             self.top_entries = {id(e): k for k, e in enumerate(entries)}
             self.top_list = entries
         return circuit
